@@ -133,6 +133,10 @@ def explore(st, gi, n, X, cfg, path, judges):
             if 'nbest' in judges and not amb[c] and len(finite):
                 st.violation(f'nbest/false_failure/{gkey(g)}', f'failed although {len(finite)} derivations exist', x=x, **base)
             continue
+        if len(res) == 0:
+            # neither trees nor the failure placeholder: "parsed" without a result
+            st.violation(f'valid/empty_result/{gkey(g)}', 'the sentence is reported as parsed but no tree is delivered (and no failure placeholder)', x=x, **base)
+            continue
         if len(finite) >= 2 and finite[0] != finite[-1]:
             st.count('nontrivial')
         if len(res) > 1:
